@@ -24,6 +24,8 @@ def run_corpus(pid: str, repo_root: Path) -> Dict:
     run = importlib.import_module("run")
     run.REPO = Path(repo_root)
     corpus = [v for v in run.load_corpus() if pid in (v["prop"] if isinstance(v["prop"], list) else [v["prop"]])]
+    # a variant that concerns several properties (the benign refactorings concern all of them) is judged here by this property's check only
+    corpus = [dict(v, prop=[pid]) if isinstance(v["prop"], list) else v for v in corpus]
     import concurrent.futures as cf
     res = []
     env_tier = os.environ.pop("VERIF_TIER", None)
